@@ -103,3 +103,11 @@ def antichain(rng, root=0, max_depth=4, p_split=0.6, p_drop=0.15, max_cells=3000
         elif rng.random() >= p_drop:
             out.append(c)
     return out
+
+
+def turns(rng):
+    """a whole number of turns to add to an angle: mostly 1..3, sometimes tens to a million (either sign) - angles are periodic, and
+    code that reduces them by hand (casts, remainders, saturating conversions) goes wrong only far out"""
+    m = rng.random()
+    k = rng.choice([1, 1, 2, 3]) if m < 0.5 else int(10 ** rng.uniform(1, 6))
+    return k if rng.random() < 0.5 else -k
